@@ -53,16 +53,19 @@ inductive DErr where
 
 abbrev D (α : Type) := Except DErr α
 
+/- the range tests are written on the constructors of `Int` with `Nat` comparisons: an `Int`
+   comparison against a 20-digit literal makes the kernel unfold the literal (`Int.sub` recurses on it) -/
 def decU64 : Json → D Nat
-  | .num n => if 0 ≤ n ∧ n < 18446744073709551616 then .ok n.toNat else .error .wrongType
+  | .num (.ofNat n) => if n < 18446744073709551616 then .ok n else .error .wrongType
   | _ => .error .wrongType
 
 def decU32 : Json → D Nat
-  | .num n => if 0 ≤ n ∧ n < 4294967296 then .ok n.toNat else .error .wrongType
+  | .num (.ofNat n) => if n < 4294967296 then .ok n else .error .wrongType
   | _ => .error .wrongType
 
 def decI64 : Json → D Int
-  | .num n => if -9223372036854775808 ≤ n ∧ n < 9223372036854775808 then .ok n else .error .wrongType
+  | .num (.ofNat n) => if n < 9223372036854775808 then .ok (.ofNat n) else .error .wrongType
+  | .num (.negSucc n) => if n < 9223372036854775808 then .ok (.negSucc n) else .error .wrongType
   | _ => .error .wrongType
 
 def decBool : Json → D Bool
